@@ -148,6 +148,21 @@ def progKWPUnwrap_old (idx idv : String) (dest src count header key len : Nat) :
 def progKRP (id : String) (dest m src n level header : Nat) : List Step :=
   [.absorb level 12, .absorb src n, .absorb header 16, .emit id dest m]
 
+def ERR_BAD_POINT : Nat := 401
+def ERR_BAD_PARAMS : Nat := 502
+
+/-- dstu.c `dstuPointCompress(xpoint, params, point)`: `qrFrom(x, point); qrFrom(y, point + no)` (both halves
+    absorbed into the blob), validity/trace computed there, then `memMove(xpoint, point, no);
+    xpoint[0] &= 0xFE; xpoint[0] |= tr;` (the x = 0 point, `memSetZero(xpoint)`, is the emit-only special case
+    and is not generated) -/
+def progDstuCompress (idx idv : String) (xpoint point no : Nat) : List Step :=
+  [.absorb point (2 * no), .guard idv 0 0 ERR_BAD_POINT 0 0, .move xpoint point no, .xform idx xpoint 1]
+
+/-- dstu.c `dstuPointRecover(point, params, xpoint)`: `qrFrom(x, xpoint)`, everything computed in the blob,
+    `qrTo(point, x); qrTo(point + no, y)` at the end -/
+def progDstuRecover (idg idv : String) (point xpoint no : Nat) : List Step :=
+  [.absorb xpoint no, .guard idv 0 0 ERR_BAD_PARAMS 0 0, .emit idg point (2 * no)]
+
 /-! ### State-resident placements (the state IS caller memory here) -/
 
 /-- `belt*Start(state, key, len, …)`: first statement `beltKeyExpand2(st->key, key, len)`
